@@ -448,58 +448,166 @@ inductive Num where
   | nolex          -- neither DoubleConstant nor IntConstant matches at this position
   deriving Repr, DecidableEq
 
+/-- magnitude read by `strconv.ParseInt(·, 0, 64)`; pre: 0 = no prefix, 16 = "0x", 8 = "0o" -/
+def magOf (pre : Nat) (ds : Bytes) : Option Nat :=
+  if pre = 16 then baseVal 16 ds
+  else if pre = 8 then baseVal 8 ds
+  else match ds with
+    | 48 :: d :: r => baseVal 8 (d :: r)      -- base 0: a leading "0" means octal
+    | _ => some (decVal ds)
+
 /-- `strconv.ParseInt(sign ++ digits-with-prefix, 0, 64)` for the shapes the IntConstant rule lets through. -/
 def parseInt0 (neg : Bool) (pre : Nat) (ds : Bytes) : Num :=
-  -- pre: 0 = no prefix, 16 = "0x", 8 = "0o"
-  let mag : Option Nat :=
-    if pre = 16 then baseVal 16 ds
-    else if pre = 8 then baseVal 8 ds
-    else match ds with
-      | 48 :: d :: r => baseVal 8 (d :: r)      -- base 0: a leading "0" means octal
-      | _ => some (decVal ds)
-  match mag with
+  match magOf pre ds with
   | none => .err
   | some m =>
     if neg then (if m ≤ 9223372036854775808 then .int (-(m : Int)) else .err)
     else (if m < 9223372036854775808 then .int m else .err)
 
+/-- optional sign of DoubleConstant / the third IntConstant alternative -/
+def splitSign (s : Bytes) : Bytes × Bytes :=
+  match s with
+  | 43 :: r => ([43], r)
+  | 45 :: r => ([45], r)
+  | _ => ([], s)
+
+/-- DoubleConstant `[+-]? (Digit* '.' Digit+ Exponent? / Digit+ Exponent)` after sign and `Digit*` -/
+def dblAlt (pf : Bytes → Nat) (sign ip s2 : Bytes) : Option (Num × Bytes) :=
+  match s2 with
+  | 46 :: s3 =>
+    let (fp, s4) := spanP isDigit s3
+    if fp.isEmpty then none
+    else match s4 with
+      | 101 :: _ => some (.exp, s4)
+      | 69 :: _ => some (.exp, s4)
+      | _ => some (.dbl (pf (sign ++ ip ++ [46] ++ fp)), s4)
+  | 101 :: _ => if ip.isEmpty then none else some (.exp, s2)
+  | 69 :: _ => if ip.isEmpty then none else some (.exp, s2)
+  | _ => none
+
+/-- IntConstant `'0x' alnum+ / '0o' Digit+ / [+-]? Digit+` -/
+def intAlt (s sign ip s2 : Bytes) : Num × Bytes :=
+  match s with
+  | 48 :: 120 :: r =>
+    let (hs, r') := spanP isAlnum r
+    if hs.isEmpty then (parseInt0 false 0 [48], 120 :: r) else (parseInt0 false 16 hs, r')
+  | 48 :: 111 :: r =>
+    let (os, r') := spanP isDigit r
+    if os.isEmpty then (parseInt0 false 0 [48], 111 :: r) else (parseInt0 false 8 os, r')
+  | _ =>
+    if ip.isEmpty then (.nolex, s)
+    else (parseInt0 (sign = [45]) 0 ip, s2)
+
 /-- `ConstValue <- DoubleConstant / IntConstant / …` at the start of `s` (after `Skip`):
-    DoubleConstant `[+-]? (Digit* '.' Digit+ Exponent? / Digit+ Exponent)` is tried first, then
-    IntConstant `'0x' alnum+ / '0o' Digit+ / [+-]? Digit+`.
-    `pf` = `strconv.ParseFloat(·, 64)` as bits.  Returns the value and the rest. -/
+    DoubleConstant is tried first, then IntConstant.  `pf` = `strconv.ParseFloat(·, 64)` as bits.
+    Returns the value and the rest.  Exponent forms are reported as `.exp` as soon as an `e`/`E` follows
+    the digits (C03's territory; never produced by the dumper). -/
 def readNumber (pf : Bytes → Nat) (s : Bytes) : Num × Bytes :=
-  let (sign, s1) : Bytes × Bytes :=
-    match s with
-    | 43 :: r => ([43], r)
-    | 45 :: r => ([45], r)
-    | _ => ([], s)
-  let (ip, s2) := spanP isDigit s1
-  -- DoubleConstant, first alternative
-  let dblAlt : Option (Num × Bytes) :=
-    match s2 with
-    | 46 :: s3 =>
-      let (fp, s4) := spanP isDigit s3
-      if fp.isEmpty then none
-      else match s4 with
-        | 101 :: _ => some (.exp, s4)
-        | 69 :: _ => some (.exp, s4)
-        | _ => some (.dbl (pf (sign ++ ip ++ [46] ++ fp)), s4)
-    | 101 :: _ => if ip.isEmpty then none else some (.exp, s2)
-    | 69 :: _ => if ip.isEmpty then none else some (.exp, s2)
-    | _ => none
-  match dblAlt with
+  let ss := splitSign s
+  let sp := spanP isDigit ss.2
+  match dblAlt pf ss.1 sp.1 sp.2 with
   | some r => r
-  | none =>
-    -- IntConstant
-    match s with
-    | 48 :: 120 :: r =>
-      let (hs, r') := spanP isAlnum r
-      if hs.isEmpty then (parseInt0 false 0 [48], 120 :: r) else (parseInt0 false 16 hs, r')
-    | 48 :: 111 :: r =>
-      let (os, r') := spanP isDigit r
-      if os.isEmpty then (parseInt0 false 0 [48], 111 :: r) else (parseInt0 false 8 os, r')
-    | _ =>
-      if ip.isEmpty then (.nolex, s)
-      else (parseInt0 (sign = [45]) 0 ip, s2)
+  | none => intAlt s ss.1 sp.1 sp.2
+
+
+/-! ## reader side: constant values and annotation lists
+
+  `Skip` is modelled for white space only: the dumper writes no comment inside a value or an annotation
+  list, and the correspondence texts contain none there.  (On a `#` or `/` outside a literal the model
+  fails where the real `Skip` would consume a comment.) -/
+
+def isWs (c : Nat) : Bool := c = 32 || c = 9 || c = 11 || c = 13 || c = 10
+def isIndent (c : Nat) : Bool := c = 32 || c = 9 || c = 11
+def isIdChar (c : Nat) : Bool := isLetter c || isDigit c || c = 46
+
+def dropP (p : Nat → Bool) : Bytes → Bytes
+  | [] => []
+  | c :: s => if p c then dropP p s else c :: s
+
+def skipWs (s : Bytes) : Bytes := dropP isWs s
+def skipIndent (s : Bytes) : Bytes := dropP isIndent s
+
+/-- `ListSeparator? <- (Skip (',' / ';') Indent*)?` -/
+def skipSep (r : Bytes) : Bytes :=
+  match skipWs r with
+  | 44 :: r' => skipIndent r'
+  | 59 :: r' => skipIndent r'
+  | _ => r
+
+/-- `Identifier <- Skip <Letter (Letter / Digit / '.')*> Indent*` after `Skip`, `Indent*` left in the rest -/
+def readIdent (s : Bytes) : Option (Bytes × Bytes) :=
+  match s with
+  | [] => none
+  | c :: r => if isLetter c then let p := spanP isIdChar r; some (c :: p.1, p.2) else none
+
+mutual
+/-- `ConstValue <- DoubleConstant / IntConstant / Literal / Identifier / ConstList / ConstMap` with
+    `parseConstValue`; the alternatives start with disjoint first bytes, so the ordered choice is a
+    dispatch on the first byte after `Skip`.  Fuel bounds the nesting depth. -/
+def readCV (pf : Bytes → Nat) : Nat → Bytes → Option (CV × Bytes)
+  | 0, _ => none
+  | f + 1, s0 =>
+    match skipWs s0 with
+    | [] => none
+    | c :: r =>
+      if c = 91 then (readCVItems pf f (skipIndent r)).map fun p => (CV.list p.1, p.2)
+      else if c = 123 then (readCVPairs pf f (skipIndent r)).map fun p => (CV.map p.1, p.2)
+      else if c = 34 ∨ c = 39 then (readLiteral (c :: r)).map fun p => (CV.lit p.1, skipIndent p.2)
+      else if isLetter c then (readIdent (c :: r)).map fun p => (CV.ident p.1, skipIndent p.2)
+      else
+        match readNumber pf (c :: r) with
+        | (.int i, r') => some (CV.int i, skipIndent r')
+        | (.dbl b, r') => some (CV.dbl b, skipIndent r')
+        | _ => none
+/-- `(ConstValue ListSeparator?)* RBRK` -/
+def readCVItems (pf : Bytes → Nat) : Nat → Bytes → Option (List CV × Bytes)
+  | 0, _ => none
+  | f + 1, s0 =>
+    match skipWs s0 with
+    | 93 :: r => some ([], skipIndent r)
+    | s =>
+      match readCV pf f s with
+      | none => none
+      | some (v, r) => (readCVItems pf f (skipSep r)).map fun p => (v :: p.1, p.2)
+/-- `(ConstValue COLON ConstValue ListSeparator?)* RWING` -/
+def readCVPairs (pf : Bytes → Nat) : Nat → Bytes → Option (List (CV × CV) × Bytes)
+  | 0, _ => none
+  | f + 1, s0 =>
+    match skipWs s0 with
+    | 125 :: r => some ([], skipIndent r)
+    | s =>
+      match readCV pf f s with
+      | none => none
+      | some (k, r) =>
+        match skipWs r with
+        | 58 :: r2 =>
+          match readCV pf f (skipIndent r2) with
+          | none => none
+          | some (v, r3) => (readCVPairs pf f (skipSep r3)).map fun p => ((k, v) :: p.1, p.2)
+        | _ => none
+end
+
+/-- `Annotations <- LPAR Annotation* RPAR`, `Annotation <- Identifier EQUAL Literal ListSeparator?`:
+    the `(k, v)` pairs in reading order (then regrouped by `annRegroup`), after the opening `(`. -/
+def readAnnPairs : Nat → Bytes → Option (List (Bytes × Bytes) × Bytes)
+  | 0, _ => none
+  | f + 1, s0 =>
+    match skipWs s0 with
+    | 41 :: r => some ([], skipIndent r)
+    | s =>
+      match readIdent s with
+      | none => none
+      | some (k, r) =>
+        match skipWs r with
+        | 61 :: r2 =>
+          match readLiteral (skipWs r2) with
+          | none => none
+          | some (v, r3) => (readAnnPairs f (skipSep (skipIndent r3))).map fun p => ((k, v) :: p.1, p.2)
+        | _ => none
+
+def readAnnotations (s : Bytes) : Option (List Ann × Bytes) :=
+  match skipWs s with
+  | 40 :: r => (readAnnPairs (r.length + 1) (skipIndent r)).map fun p => (annRegroup p.1, p.2)
+  | _ => none
 
 end Dump
